@@ -23,6 +23,7 @@ import (
 	"database/sql/driver"
 	"errors"
 	"fmt"
+	"sync"
 	"time"
 
 	"seata.apache.org/seata-go/pkg/datasource/sql/types"
@@ -46,6 +47,10 @@ type XAConn struct {
 	branchRegisterTime time.Time
 	prepareTime        time.Time
 	isConnKept         bool
+	// keptXids are the branch identifiers this connection is held for: several branches of one
+	// connection may wait for their second phase at the same time
+	keptMu   sync.Mutex
+	keptXids map[string]struct{}
 }
 
 func (c *XAConn) PrepareContext(ctx context.Context, query string) (driver.Stmt, error) {
@@ -227,18 +232,36 @@ func (c *XAConn) createNewTxOnExecIfNeed(ctx context.Context, f func() (types.Ex
 func (c *XAConn) keepIfNecessary() {
 	if c.ShouldBeHeld() {
 		if err := c.res.Hold(c.xaBranchXid.String(), c); err == nil {
+			c.keptMu.Lock()
+			if c.keptXids == nil {
+				c.keptXids = make(map[string]struct{})
+			}
+			c.keptXids[c.xaBranchXid.String()] = struct{}{}
 			c.isConnKept = true
+			c.keptMu.Unlock()
 		}
 	}
 }
 
 func (c *XAConn) releaseIfNecessary() {
-	if c.ShouldBeHeld() && c.xaBranchXid != nil && c.xaBranchXid.String() != "" {
-		if c.isConnKept {
-			c.res.Release(c.xaBranchXid.String())
-			c.isConnKept = false
-		}
+	if c.xaBranchXid != nil {
+		c.release(c.xaBranchXid.String())
 	}
+}
+
+// release forgets that the connection is held for xaBranchXid; the connection stays kept while
+// other branches still wait for their second phase on it
+func (c *XAConn) release(xaBranchXid string) {
+	if !c.ShouldBeHeld() || xaBranchXid == "" {
+		return
+	}
+	c.keptMu.Lock()
+	defer c.keptMu.Unlock()
+	if _, ok := c.keptXids[xaBranchXid]; ok {
+		c.res.Release(xaBranchXid)
+		delete(c.keptXids, xaBranchXid)
+	}
+	c.isConnKept = len(c.keptXids) > 0
 }
 
 func (c *XAConn) start(ctx context.Context) error {
@@ -397,7 +420,7 @@ func (c *XAConn) CloseForce() error {
 
 func (c *XAConn) XaCommit(ctx context.Context, xaXid XAXid) error {
 	err := c.xaResource.Commit(ctx, xaXid.String(), false)
-	c.releaseIfNecessary()
+	c.release(xaXid.String())
 	return err
 }
 
@@ -407,6 +430,6 @@ func (c *XAConn) XaRollbackByBranchId(ctx context.Context, xaXid XAXid) error {
 
 func (c *XAConn) XaRollback(ctx context.Context, xaXid XAXid) error {
 	err := c.xaResource.Rollback(ctx, xaXid.String())
-	c.releaseIfNecessary()
+	c.release(xaXid.String())
 	return err
 }
